@@ -305,3 +305,36 @@ Proof.
   now rewrite !filter_array_spec.
 Qed.
 
+
+(* the ranges are non-empty, increasing and separated by at least one unselected row (maximal runs) *)
+Fixpoint separated (lo : nat) (rs : list (nat * nat)) : Prop :=
+  match rs with
+  | [] => True
+  | (s, e) :: r => lo <= s /\ s < e /\ separated (S e) r
+  end.
+
+Lemma runs_separated f : forall k open,
+  match open with
+  | None => separated k (C19_Bits.runs_from k None f)
+  | Some s => s < k -> exists e rest, C19_Bits.runs_from k (Some s) f = (s, e) :: rest /\ k <= e /\ separated (S e) rest
+  end.
+Proof.
+  induction f as [|b f IH]; intros k open.
+  - destruct open as [s|]; cbn; [|exact I]. intros H. exists k, []. repeat split; auto.
+  - destruct b; cbn [C19_Bits.runs_from].
+    + destruct open as [s|].
+      * intros H. destruct (IH (S k) (Some s)) as (e & rest & E & He & Hs); [lia|].
+        exists e, rest. repeat split; auto. lia.
+      * destruct (IH (S k) (Some k)) as (e & rest & E & He & Hs); [lia|].
+        rewrite E. cbn. repeat split; auto; lia.
+    + destruct open as [s|].
+      * intros H. exists k, (C19_Bits.runs_from (S k) None f). repeat split; auto.
+        exact (IH (S k) None).
+      * pose proof (IH (S k) None) as H. clear IH.
+        assert (G : forall lo lo' rs, lo' <= lo -> separated lo rs -> separated lo' rs).
+        { intros lo lo' [|[s e] r] Hl; cbn; auto. intros (A1 & A2 & A3). repeat split; auto; lia. }
+        apply (G (S k)); [lia|exact H].
+Qed.
+
+Lemma runs_are_separated f : separated 0 (runs f).
+Proof. exact (runs_separated f 0 None). Qed.
